@@ -115,7 +115,12 @@ impl EventSender<'_> {
 
 impl EventSource for EventSender<'_> {
     fn subscribe(&mut self, co: CoroutineImpl) {
-        self.cqueue.ev_queue.push(Event {
+        // `self` lives on the stack of the select coroutine and the cqueue on the
+        // stack of the poller: once the event is pushed the poller may run the
+        // coroutine to its end and leave the scope, in_flight makes it wait for us
+        let cqueue = self.cqueue;
+        cqueue.in_flight.fetch_add(1, Ordering::SeqCst);
+        cqueue.ev_queue.push(Event {
             id: self.id,
             token: self.token,
             extra: self.extra.load(Ordering::Relaxed),
@@ -124,9 +129,10 @@ impl EventSource for EventSender<'_> {
         });
         #[cfg(may_verif)]
         may_queue::verif::point(may_queue::verif::site::CQ_SEND_SUB_PUSHED, 0);
-        if let Some(w) = self.cqueue.to_wake.take() {
+        if let Some(w) = cqueue.to_wake.take() {
             w.unpark();
         }
+        cqueue.in_flight.fetch_sub(1, Ordering::SeqCst);
     }
 
     fn yield_back(&self, _cancel: &'static Cancel) {
@@ -137,6 +143,8 @@ impl EventSource for EventSender<'_> {
 impl Drop for EventSender<'_> {
     // when the select coroutine finished will trigger this drop
     fn drop(&mut self) {
+        // once cnt drops to zero the poller may leave the scope, see subscribe
+        self.cqueue.in_flight.fetch_add(1, Ordering::SeqCst);
         self.cqueue.ev_queue.push(Event {
             id: self.id,
             token: self.token,
@@ -152,6 +160,7 @@ impl Drop for EventSender<'_> {
         if let Some(w) = self.cqueue.to_wake.take() {
             w.unpark();
         }
+        self.cqueue.in_flight.fetch_sub(1, Ordering::SeqCst);
     }
 }
 
@@ -169,6 +178,8 @@ pub struct Cqueue {
     total: AtomicUsize,
     // panic status
     is_panicking: AtomicBool,
+    // select coroutines that still use the cqueue to wake up the poller
+    in_flight: AtomicUsize,
 }
 
 impl Cqueue {
@@ -335,7 +346,11 @@ impl Drop for Cqueue {
                 _ => unreachable!("cqueue drop unreachable"),
             }
         }
-        // we are sure that all the coroutines are finished
+        // all the coroutines are finished, but the threads that ran their last
+        // steps may still be about to wake us up
+        while self.in_flight.load(Ordering::SeqCst) != 0 {
+            crate::yield_now::yield_now();
+        }
     }
 }
 
@@ -355,6 +370,7 @@ where
             selectors: Mutex::new(Vec::new()),
             total: AtomicUsize::new(0),
             is_panicking: AtomicBool::new(false),
+            in_flight: AtomicUsize::new(0),
         };
         // finish any unwinding before the cqueue is dropped (in place, the select
         // coroutines hold a reference to it): draining them may block, which must
